@@ -116,6 +116,14 @@ def judge_c02(ctx, ex):
                     yield ("shape %s was removed although its feature %r reaches the threshold" % (c, k), ge_threshold_expr(cnt, size, t),
                            "STAGE-ref-to-removed-shape-drops-constraint")
             continue
+        if isinstance(size, int) and size == 0:
+            # a requested class without instances: an empty shape reporting 0 instances iff empty shapes are kept
+            want = 0 if r0["flags"]["remove_empty_shapes"] else 1
+            if len(shapes) != want:
+                yield ("%d shapes for the requested class %s that has no instances (remove_empty_shapes=%s)" % (len(shapes), c, r0["flags"]["remove_empty_shapes"]), True, None)
+            elif shapes and (shapes[0].statements or (shapes[0].n_instances is not None and shapes[0].n_instances.text != "0")):
+                yield ("shape of the instance-less class %s is not empty / does not report 0 instances" % c, True, None)
+            continue
         if len(shapes) != 1:
             yield ("%d shapes for class %s" % (len(shapes), c), True, None)
             continue
@@ -238,13 +246,16 @@ def _check_figure(ex, sym, c, d, prop, kind, card, ratio, count, size, flags, on
 class ConcreteRef:
     """Reference figures recomputed from the triples of a concrete document."""
 
-    def __init__(self, triples, inverse, instances=None):
+    def __init__(self, triples, inverse, instances=None, extra_classes=()):
         self.instances, self.feats = R.refprof(triples, inverse=inverse, instances=instances)
+        self.extra_classes = list(extra_classes)
         self.ref, _ = R.reference_counts(self.instances, self.feats, lambda n: 1, inverse=inverse)
         self.sizes = {}
         for node, classes in self.instances.items():
             for c in classes:
                 self.sizes[c] = self.sizes.get(c, 0) + 1
+        for c in self.extra_classes:
+            self.sizes.setdefault(c, 0)
         self.nonlit, self.both = {}, set()
         for node, classes in self.instances.items():
             for d in ((0, 1) if inverse else (0,)):
@@ -280,6 +291,10 @@ def concrete_c02(cref, schema, threshold, tags, remove_empty=True):
         labels.add(R.shape_name(c)[2:-1])
         shapes = shape_of(schema, c)
         sm_removal = "shapemap" in tags and remove_empty
+        if size == 0:
+            if len(shapes) != (0 if remove_empty else 1):
+                problems.append("%d shapes for the requested class %s without instances" % (len(shapes), c))
+            continue
         if len(shapes) == 0 and sm_removal:
             for k, cnt in candidate_keys(sym, c).items():
                 if k[2] != ("nonliteral",) and float(cnt) / float(size) >= threshold:
@@ -1019,7 +1034,7 @@ JUDGES = {
 
 def _cref(c, i=0):
     return ConcreteRef(c["triples"] if c["reals"][i]["run"]["graph"] != "R" else __import__("harness.stage", fromlist=["x"]).reverse_triples(c["triples"]),
-                       c["reals"][i]["run"]["flags"]["inverse_paths"], c.get("instances"))
+                       c["reals"][i]["run"]["flags"]["inverse_paths"], c.get("instances"), [R.EX + x for x in (c["cfg"].get("targets") or [])])
 
 
 class _ConcreteEx:
